@@ -130,6 +130,15 @@ func (k *kid) OnReceive(ctx vivid.ActorContext) {
 	case *vivid.OnLaunch:
 		k.state = nil
 		k.r.launches.Add(1)
+	case *vivid.OnTerminate:
+		// a "logout / flush marker": an event recorded while handling OnTerminate belongs to the history that is
+		// saved when the generation ends - at a stop AND at a restart (the old instance's farewell turns come
+		// before the save)
+		if v := k.r.farewell; v != 0 {
+			k.inApply = true
+			ctx.StateChangeEventApply(evT(v))
+			k.inApply = false
+		}
 	case *vivid.OnPersistenceSnapshot:
 		ctx.SaveSnapshot(snapT(append([]int(nil), k.state...)))
 	case snapT:
@@ -212,10 +221,11 @@ func (k *kid) command(ctx vivid.ActorContext, m *cmd) {
 // ---------------------------------------------------------------- runner
 
 type runner struct {
-	sys    *vivid.ActorSystem
-	parent vivid.ActorRef
-	termCh chan struct{}
-	host   *suiteRunner
+	farewell int // op `farewell v`: the actor records event v while handling OnTerminate (0 = nothing)
+	sys      *vivid.ActorSystem
+	parent   vivid.ActorRef
+	termCh   chan struct{}
+	host     *suiteRunner
 
 	spawned   bool
 	thr       int
@@ -473,7 +483,7 @@ func (r *runner) Step(t []string) string {
 		return r.launchChild()
 	}
 	switch t[0] {
-	case "ev", "fail", "recreate", "persist", "snap", "clear", "get", "count", "rlog", "stored", "replay", "saves", "burst":
+	case "ev", "fail", "recreate", "persist", "snap", "clear", "get", "count", "rlog", "stored", "replay", "saves", "burst", "farewell":
 	default:
 		return "bad-op"
 	}
@@ -484,6 +494,16 @@ func (r *runner) Step(t []string) string {
 		return "err:dead"
 	}
 	switch t[0] {
+	case "farewell":
+		if len(t) != 2 {
+			return "bad-op"
+		}
+		v, ok := proto.Atoi(t[1])
+		if !ok {
+			return "bad-op"
+		}
+		r.farewell = v
+		return "ok"
 	case "ev":
 		if len(t) != 2 {
 			return "bad-op"
